@@ -1675,6 +1675,13 @@ class Interp:
             return self.or_all([SBool(f(strterm(x), t)) for x in alts])
         if m in ("isnumeric", "isdigit"):
             return SBool(z3.InRe(t, smt.DIG))
+        if m in ("islower", "isupper"):
+            other = z3.Range("A", "Z") if m == "islower" else z3.Range("a", "z")
+            own = z3.Range("a", "z") if m == "islower" else z3.Range("A", "Z")
+            rest = z3.Star(z3.Diff(z3.Range(" ", "~"), other)) if hasattr(z3, "Diff") else None
+            if rest is None:
+                raise Unsupported("str.%s" % m)
+            return SBool(z3.InRe(t, z3.Concat(rest, own, rest)))
         if m == "count":
             c = args[0]
             if isinstance(c, str) and len(c) == 1:
